@@ -648,6 +648,18 @@ def exact_count_recursive(run, R="MATCH"):
             if "exact_part_count" in str(st):
                 own += 1
     ok = bool(selfc) and all(selfc) and own >= 1
+    if not selfc and own >= 1:
+        # an explicit work list instead of recursion: nested matches are pushed onto a stack inside the loop that drains it
+        from mir import natural_loop
+        for g in fam:
+            loops = [natural_loop(g, h) for h in sorted(g.reachable())]
+            for bi, t in g.calls():
+                if re.search(r"Vec::<.*>::(push|extend|extend_from_slice)$|VecDeque::<.*>::push_back$", t.get("callee") or "") and any(bi in l_ for l_ in loops):
+                    try:
+                        if any("@Nested" in str(deep(g, a, d=6)) for a in t["args"][1:]):
+                            ok = True
+                    except Exception:
+                        pass
     run.check(ok, R, R + "|exact-count-recursive", f.loc(), "the exact-part count of a match descends into every nested match (self-call on the Nested payload) and adds the rule's own count",
               "get_recursive_exact_part_count: %d self-call(s) on a Nested argument's match, %d read(s) of exact_part_count: literal parts two or more sub-rule levels deep would no longer count, so a literally spelled operand there stops out-ranking an expression reading of the same text" % (sum(1 for x in selfc if x), own))
 
